@@ -29,8 +29,14 @@ INDENT = ["", "    "]
 MSETS = [0, 3]
 
 
+PAREN_GAPS = ["", "\n        "]      # the statement split after its `!`: it still starts on the line of its name
+
+
 def build(spec):
     for seq, bi, tr, trd, eol, style, ind, ms in spec:
+        pg = 0
+        if isinstance(ms, tuple):
+            ms, pg = ms
         macro = gen.MACRO_SETS[ms][0]
         f = gen.File(style)
         f.raw("fn f() {\n")
@@ -45,7 +51,7 @@ def build(spec):
         for n, cnt in enumerate(block):
             f.raw(INDENT[ind])
             for j in range(cnt):
-                st = gen.Stmt(macro=macro, kvs=(["a = 1"] if k % 2 else []), msg="m%d" % k)
+                st = gen.Stmt(macro=macro, kvs=(["a = 1"] if k % 2 else []), msg="m%d" % k, paren_gap=PAREN_GAPS[pg])
                 k += 1
                 f.stmt(st, ignored=(governing == "ignore"), no_kvp=(governing == "no-kvp"))
                 f.raw(";" if j == cnt - 1 else "; ")
@@ -58,7 +64,7 @@ def build(spec):
                 f.raw(INDENT[ind] + (IGN if trd == 0 else NOKVP)[0] + "\n")
         f.raw("}\n")
         code, exp = f.build(crlf=eol)
-        yield gen.cfg_index(ms, style), code, exp, (seq, bi, tr, trd, eol, style, ind, ms)
+        yield gen.cfg_index(ms, style), code, exp, (seq, bi, tr, trd, eol, style, ind, ms if not pg else (ms, pg))
 
 
 def space(tier):
@@ -68,6 +74,12 @@ def space(tier):
             for bi, tr, eol, style, ind, ms in itertools.product(range(len(BLOCKS)), range(len(TRAIL)), (0, 1), (0, 1), (0, 1), MSETS):
                 for trd in ((0, 1) if tr else (0,)):
                     yield (seq, bi, tr, trd, eol, bool(style), ind, ms)
+    # statements split after the bang, under every single governing line
+    for L in (0, 1):
+        for seq in itertools.product(range(len(LINES)), repeat=L):
+            # (one statement per line only: with two on a line the second would start on the line of the first one's parenthesis)
+            for bi, style, ind in itertools.product((0, 2), (0, 1), (0, 1)):
+                yield (seq, bi, 0, 0, 0, bool(style), ind, (0, 1))
     # one more line of depth with the other dimensions reduced
     L = full_len + 1
     for seq in itertools.product(range(len(LINES)), repeat=L):
@@ -78,6 +90,9 @@ def space(tier):
 
 def classify(f):
     seq, bi, tr, trd, eol, style, ind, ms = f["label"]
+    split = isinstance(ms, (tuple, list))
+    if split:
+        ms = ms[0]
     if f["class"] == "panic":
         return "panic:" + ("non-ascii-macro" if ms == 3 else "other")
     tags = []
@@ -87,6 +102,8 @@ def classify(f):
     tags.append("governing=" + (kinds[-1] if kinds else "none"))
     if tr:
         tags.append("trailing-" + TRAIL[tr])
+    if split:
+        tags.append("split-after-bang")
     return "%s:%s:%s" % ("structured" if style else "unstructured", f["class"], "+".join(tags))
 
 
